@@ -555,6 +555,9 @@ def abstract_fresh_vs_real(spec_fresh, fresh_proj, names):
                 out.append({'table': t, 'kind': 'pk', 'column': name})
         widx = sorted([[col(x) for x in ix[0]], bool(ix[1])] for ix in info['idx'])
         ridx = sorted([[x.split(' ')[0] for x in ix[0]], bool(ix[1])] for ix in real[t]['indexes'])
+        # Schema.tla keeps a SET of indexes: an index declared twice (hazard index-declared-twice)
+        # is one element there and two indexes in Django's own creation
+        ridx = [x for i, x in enumerate(ridx) if i == 0 or ridx[i - 1] != x]
         if widx != ridx:
             out.append({'table': t, 'kind': 'indexes', 'spec': widx, 'django': ridx})
         wfk = sorted([col(x[0]), names.table(x[1]) if x[1].startswith('t_') else x[1], col(x[2])]
